@@ -278,12 +278,12 @@ fn supplied<P: crate::tw::problems::HProblem>(
 
 pub fn run(tier: Tier, seed: u64, known: &KnownFindings) -> CheckReport {
     let mk = |batch: &'static str, runs: u64| BatchConfig { check_id: "C08", batch, base_seed: seed, tier, runs, threads: threads(), known, samples: 1 };
-    let b1 = run_batch(&SeqVsPar { prop: "C08", name: "seq-vs-par" }, &mk("sequential-vs-parallel", tier.pick(2_500, 120_000)));
-    let b2 = run_batch(&Generators, &mk("generators", tier.pick(2_000, 60_000)));
+    let b1 = run_batch(&SeqVsPar { prop: "C08", name: "seq-vs-par" }, &mk("sequential-vs-parallel", tier.pick(2_000, 80_000)));
+    let b2 = run_batch(&Generators, &mk("generators", tier.pick(20_000, 300_000)));
     let b3 = {
         // par_experiment prints a line per call
         let _quiet = StdoutSilencer::new();
-        run_batch(&crate::checks::experiment::Experiment { prop: "C08" }, &mk("par-experiment", tier.pick(400, 20_000)))
+        run_batch(&crate::checks::experiment::Experiment { prop: "C08" }, &mk("par-experiment", tier.pick(5_000, 150_000)))
     };
     CheckReport {
         property_id: "C08".into(),
